@@ -5,7 +5,7 @@ from typing import List
 from glom import glom, assign, Assign, Path, T, S, Spec, Val, Coalesce, GlomError, PathAccessError, PathAssignError
 
 from harness.mutlib import (SEGS, NFAM, FAMILIES, family, plain, ids, ref_assign, spell, pick_segs, Obj, Boom, step_get,
-                            MyDict, MyList)
+                            MyDict, MyList, ragged, ragged_path)
 from vkit.common import start, reach, fail, known_open, concretize, OUT, run
 from vkit.ob import Ob
 import vkit.stubs  # noqa: F401
@@ -281,6 +281,72 @@ def assign_wild3(shape: int, v: int, a: int) -> bool:
     return all(x[0] == v for x in flat) or fail(why='not every match assigned', t=t)
 
 
+def assign_wild_sizes(nw: int, final: int, style: int, s0: int, s1: int, s2: int, a: int, v: int) -> bool:
+    """1-3 wildcards over ragged containers (empty ones included): the value arrives at EVERY match, nothing else changes,
+    and when there is no match at all the assign is a no-op, not an error"""
+    start()
+    nw, final, style = concretize(nw, 1, 3), concretize(final, 0, 2), concretize(style, 0, 2)
+    s0, s1, s2 = concretize(s0, 0, 2), concretize(s1, 0, 2), concretize(s2, 0, 2)
+    if OUT in (nw, final, style, s0, s1, s2):
+        return True
+    t, leaves = ragged(nw, [s0, s1, s2], final, a)
+    before = [copy.deepcopy(l) for l in leaves]
+    got = run(lambda: glom(t, Assign(ragged_path(nw, final, style), v), glom_debug=True))
+    reach('wild_sizes')
+    if not leaves:
+        reach('wild_no_match')
+    if got.kind != 'ok' or got.value is not t:
+        return fail(why='wildcard assign must succeed and return the target', got=got, n=len(leaves))
+    for lf, b in zip(leaves, before):
+        if final == 0:
+            ok = lf['v'] == v and lf['keep'] == b['keep'] and len(lf) == 2
+        elif final == 1:
+            ok = lf[0] == v and lf[1:] == b[1:]
+        else:
+            ok = lf.v == v and lf.keep == b.keep
+        if not ok:
+            return fail(why='not assigned at every match (or something else changed)', leaf=lf, before=b, n=len(leaves))
+    return True
+
+
+class _Box:
+    """a container type nothing is registered for by default: only a Glommer that registers it can look inside"""
+    __slots__ = ('inner',)
+
+    def __init__(self, inner):
+        self.inner = inner
+
+
+def assign_ctx(kind: int, xs: List[int], k: int, v: int) -> bool:
+    """the parent of the element is looked up in the CURRENT evaluation context: scope variables used as keys / indices in
+    the path (bound by the caller's scope= or by an earlier S(...) step) and handlers registered on the Glommer in use"""
+    from glom import Glommer
+    start()
+    kind = concretize(kind, 0, 3)
+    if kind is OUT or not (0 <= k < len(xs)):
+        return True
+    rows = [{'x': v, 'keep': i} for i, v in enumerate(xs)]
+    t = {'rows': rows}
+    if kind == 0:
+        got = run(lambda: glom(t, Assign(T['rows'][S.k]['x'], v), scope={'k': k}, glom_debug=True))
+    elif kind == 1:
+        got = run(lambda: glom(t, (S(k=Val(k)), Assign(T['rows'][S['k']]['x'], v)), glom_debug=True))
+    elif kind == 2:
+        got = run(lambda: glom(t, (S(name=Val('rows')), Assign(Path(T[S['name']], k, 'x'), v)), glom_debug=True))
+    else:
+        g = Glommer()
+        g.register(_Box, get=lambda box, name: box.inner[name])
+        t = _Box({'rows': rows})
+        got = run(lambda: g.glom(t, Assign(Path('rows', k, 'x'), v), glom_debug=True))
+    reach('assign_ctx')
+    if got.kind != 'ok':
+        return fail(why='the parent exists: the assign must succeed', got=got, kind=kind)
+    for i, r in enumerate(rows):
+        if r['x'] != (v if i == k else xs[i]) or r['keep'] != i:
+            return fail(why='exactly the addressed element is assigned', rows=rows, k=k, kind=kind)
+    return True
+
+
 def assign_values(which: int, v: int, w: int) -> bool:
     """values: Spec / T of the target, containers (rebuilt, same type), self-referential containers"""
     start()
@@ -485,6 +551,13 @@ def obligations(tier):
         obs.append(Ob(assign_reuse, fixed={'k1': k1}, pre='0 <= k2 <= 3 and 0 <= seg <= 1 and 0 <= style <= 1', name='assign_reuse_%d' % k1))
         obs.append(Ob(assign_wild_mixed, fixed={'k0': k1}, pre='0 <= k1 <= 3 and 0 <= k2 <= 3 and 0 <= seg <= 1', name='assign_wild_mixed_%d' % k1))
     obs.append(Ob(assign_wild3, pre='0 <= shape <= 1', name='assign_wild3'))
+    obs.append(Ob(assign_ctx, pre='0 <= kind <= 3 and len(xs) <= 3', name='assign_ctx'))
+    obs.append(Ob(assign_ctx, pre='0 <= kind <= 3 and len(xs) <= 3', twin='assign_ctx', name='assign_ctx'))
+    wp = '0 <= style <= 2 and 0 <= s0 <= 2 and 0 <= s1 <= 2 and 0 <= s2 <= 2'
+    for nw in (1, 2, 3):
+        for final in range(3):
+            obs.append(Ob(assign_wild_sizes, fixed={'nw': nw, 'final': final}, pre=wp, name='assign_wild_sizes_w%d_f%d' % (nw, final), timeout=150))
+    obs.append(Ob(assign_wild_sizes, fixed={'nw': 2, 'final': 0}, pre=wp, twin='wild_no_match', name='assign_wild_sizes_w2_f0'))
     obs.append(Ob(assign_s_rooted, pre='0 <= present <= 2 and 0 <= style <= 1', name='assign_s_rooted'))
     obs.append(Ob(assign_missing_wild, pre='0 <= shape <= 3', name='assign_missing_wild'))
     obs.append(Ob(assign_fn, pre='0 <= which <= 3 and len(xs) <= 2', name='assign_fn'))
